@@ -29,6 +29,12 @@ fn main() {
         "scen" => scen::run(&kv),
         // child mode of the `pvp` operation: the real player-vs-player loop on this process's stdin/stdout
         "pvpchild" => chess::game::player_vs_player::player_vs_player(),
+        // child mode of the `play` operation: the real human-vs-computer loop
+        "playchild" => {
+            let d: u8 = kv.get("depth", "1").parse().unwrap();
+            let c = if kv.get("color", "w") == "w" { chess::board::color::Color::White } else { chess::board::color::Color::Black };
+            chess::game::human_vs_computer::play_computer(d, c)
+        }
         "replay" => scen::replay(&kv),
         "search" => special::search_cmd(&kv),
         "sched" => special::sched_cmd(&kv),
